@@ -100,6 +100,11 @@ fn os_cmd(s: &OS, cr: &mut Rng, old: Option<&OS>, acc: &mut GenAcc, path: &[u8],
         acc.facts.push(Fact::Up { dot: dot_or, path: path.to_vec(), leaf: Leaf::Add(vec![m]) });
         return s.add(m, add_ctx.unwrap());
     }
+    if may_add && c == 5 && cr.chance(1, 8) {
+        acc.desc += "add_all([])";
+        acc.facts.push(Fact::Up { dot: dot_or, path: path.to_vec(), leaf: Leaf::Add(vec![]) });
+        return s.add_all(Vec::<u8>::new(), add_ctx.unwrap());
+    }
     if may_add && c == 5 {
         acc.desc += &format!("add_all([{m},{m2}])");
         acc.facts.push(Fact::Up { dot: dot_or, path: path.to_vec(), leaf: Leaf::Add(vec![m, m2]) });
@@ -171,7 +176,12 @@ impl Sut for OS {
             // force the add branch of os_cmd
             let m = cr.below(nm() as usize) as u8;
             let m2 = (m + 1) % nm();
-            let op = if cr.below(6) == 0 {
+            let op = if cr.below(40) == 0 {
+                // a batch filtered down to nothing still consumes the dot
+                acc.desc = "add_all([])".to_string();
+                acc.facts.push(Fact::Up { dot: want, path: vec![], leaf: Leaf::Add(vec![]) });
+                self.add_all(Vec::<u8>::new(), ctx)
+            } else if cr.below(6) == 0 {
                 acc.desc = format!("add_all([{m},{m2}])");
                 acc.facts.push(Fact::Up { dot: want, path: vec![], leaf: Leaf::Add(vec![m, m2]) });
                 self.add_all(vec![m, m2], ctx)
